@@ -6,7 +6,7 @@ operating system.
 * `Ideal`: the file input stream as a *window over the file content*: `pos` bytes have been consumed, the next
   `avail` bytes are visible.  `get want` enlarges the window to `min B (bytes left)` when it is empty or
   smaller than `min want B`; `advance n` consumes `n` bytes (or the whole window).  No buffer, no OS.
-* `nextLine`: the line `istream_get_line` must return from the bytes that are left.
+* `nextLine`: the line `istream_get_line` must return from the bytes that are left (a byte-at-a-time scanner).
 -/
 import Sqfs.Model.IoLoops
 namespace Sqfs.IoLoops.Spec
@@ -32,28 +32,23 @@ def idealAdv (s : Ideal) (count : Nat) : Ideal :=
 def idealStream (B : Nat) (data : Bytes) : StreamI Ideal :=
   ⟨idealGet B data, idealAdv, fun s => data.length - s.pos⟩
 
-/-- Split off the first line: the bytes before the first '\n' and the bytes after it; `none` when there is no '\n'. -/
-def cutLine : Bytes → Option (Bytes × Bytes)
-  | [] => none
-  | c :: t =>
-    if c = 10 then some ([], t)
-    else match cutLine t with
-      | some (l, r) => some (c :: l, r)
-      | none => none
+/-- What `istream_get_line` must deliver from the bytes `rest` that are left, read one byte at a time:
+`cur` is the line collected so far.  Result: the line (`none` = end of input), the bytes left after it, the
+updated line counter.  A line ends at '\n' (one '\r' before it is dropped) or at the end of the input (where an
+empty remainder is not a line); the flags trim it; with `SKIP_EMPTY` empty lines are counted and skipped. -/
+def nextLineAux (flags : Nat) : Bytes → Bytes → Nat → Option Bytes × Bytes × Nat
+  | cur, [], ln =>
+    if cur.length = 0 then (none, [], ln)
+    else
+      let t := trimFlags flags cur
+      if t.length > 0 ∨ !skipEmpty flags then (some t, [], ln) else (none, [], ln)
+  | cur, c :: r, ln =>
+    if c = 10 then
+      let t := trimFlags flags (stripCr cur)
+      if t.length > 0 ∨ !skipEmpty flags then (some t, r, ln) else nextLineAux flags [] r (ln + 1)
+    else nextLineAux flags (cur ++ [c]) r ln
 
-/-- What `istream_get_line` must deliver from the remaining bytes `rest` (fuel = `rest.length + 1` suffices):
-the line (or `none` at end of input), the bytes left after it, the updated line counter. -/
-def nextLine (flags : Nat) : Nat → Bytes → Nat → Option Bytes × Bytes × Nat
-  | 0, rest, ln => (none, rest, ln)
-  | fuel + 1, rest, ln =>
-    match cutLine rest with
-    | some (l, r) =>
-      let t := trimFlags flags (stripCr l)
-      if t.length > 0 ∨ !skipEmpty flags then (some t, r, ln) else nextLine flags fuel r (ln + 1)
-    | none =>
-      if rest.length = 0 then (none, [], ln)
-      else
-        let t := trimFlags flags rest
-        if t.length > 0 ∨ !skipEmpty flags then (some t, [], ln) else (none, [], ln)
+def nextLine (flags : Nat) (rest : Bytes) (ln : Nat) : Option Bytes × Bytes × Nat :=
+  nextLineAux flags [] rest ln
 
 end Sqfs.IoLoops.Spec
